@@ -287,6 +287,14 @@ def kstep_sx(st):
     if st[0] in (7, 9):
         # an existence filter [?(@ inner)]: (7, [inner steps]); its negation [?(!@ inner)]: (9, [inner steps])
         return '%d ' % st[0] + ' '.join('(%s)' % kstep_sx(x) for x in st[1])
+    if st[0] == 10:
+        # a filter over a query in disjunctive form: (10, [[basic query, ...], ...]); a basic query is ('e', inner) | ('n', inner) | ('c', inner, op, lit)
+        def bq(b):
+            inner = ' '.join('(%s)' % kstep_sx(x) for x in b[1])
+            if b[0] == 'c':
+                return '(c (%s) %d %s)' % (inner, b[2], ' '.join(str(x) for x in b[3]))
+            return '(%s %s)' % (b[0], inner)
+        return '10 ' + ' '.join('(%s)' % ' '.join(bq(b) for b in conj) for conj in st[1])
     if st[0] == 8:
         # a comparison filter [?(@ inner OP number)]: (8, [inner steps], operator code 0..5, literal code points)
         return '8 (%s) %d %s' % (' '.join('(%s)' % kstep_sx(x) for x in st[1]), st[2], ' '.join(str(x) for x in st[3]))
